@@ -51,6 +51,42 @@ INFO = {
  "C19-b": ("local_complemented() rebuilt as Graph(adjacency ^ outer(nb, nb)) without clearing the diagonal", "inspect the matrix / edge_count, or chain a second complementation at a former neighbour"),
 }
 
+INFO.update({
+ "C02w2-a": ("get_connectivity_graph(n,'Q') built by a new Graph.lollipop(num_vertices, tail=1) helper: correct for n=5, edge (1,5) instead of (2,5) for n=6", "only (6,'Q'): the reported coupling graph no longer contains the pair (2,5) the tables use"),
+ "C02w2-b": ("_normalize_measured_qubits() returns None when the list names all qubits of the circuit", "measured_qubits lists ALL qubits in a non-identity order, e.g. [2,0,1], on a restricted connectivity"),
+ "C03w2-a": ("get_readout_circuit inverts get_preparation_circuit (with its sign-dependent X layer) instead of the sign-free builder", "compare readout circuits across sign vectors of one group"),
+ "C03w2-b": ("is_connectivity_supported rewritten as a by-name predicate (T, Q as 5-qubit shapes) and used as the pre-check of get_readout_circuit", "6 qubits, 'Q', readout entry point: ValueError for an advertised pair"),
+ "C04w2-a": ("forest fast path: graph-form forest stabilizers whose edges are on the connectivity are served by graph.to_circuit(), bypassing the tables", "graph-form forest inputs: cost equal, two-qubit depth differs from the class's metadata"),
+ "C04w2-b": ("parse_circuit(acts_on_zero_state=True) for stabilizer entries omits no-op gates on |0> qubits", "119 six-qubit table entries (linear/E/H/Q): delivered cost below the metadata"),
+ "C05w2-a": ("best_stabilizer_circuit_lookup consults the tables of contained connectivities and ranks by (depth, cost) instead of (cost, depth)", "(5,'Q') classes 16 and 68; (6,'all'/'ladder'/'Q') many classes"),
+ "C05w2-b": ("for connectivity 'all' the table is bypassed and the graph-state circuit of the class representative is used", "6 qubits, 'all', 31 classes: 6 (9) gates where 5 (7) suffice"),
+ "C07w2-a": ("Clifford-gate whitelist in the circuit branch of Stabilizer.__init__ spells the identity 'i' (Qiskit: 'id')", "any input circuit containing an identity gate: ValueError"),
+ "C07w2-b": ("compress_preparation_circuit logs original_cost / optimized_cost eagerly", "fully separable prepared state (class 0): ZeroDivisionError"),
+ "C08w2-a": ("assert_connectivity_is_supported asks whether stabilizer<n>-<c>.txt is shipped", "(6,'allx'): the stray table makes an unadvertised pair accepted by every stabilizer entry point"),
+ "C08w2-b": ("MUB functions validate against get_args(Literal[...]) of their stale annotation", "(6,'ladder'), (6,'E'), (6,'H') rejected by the three MUB functions and full_state_tomography_circuits"),
+ "C09w2-a": ("get_mub_info derives its numbers from the parsed circuits; the new depth helper looks only at the last layer", "max two-qubit depth off by one for 6 of the 20 configurations"),
+ "C09w2-b": ("mub6-ladder.txt 'depth optimisation': basis 9 gets a depth-3 circuit with 7 CZ (header kept truthful)", "(6,'ladder') basis 9: MUB circuit costs 7, the library's readout for the same basis 6"),
+ "C10w2-a": ("all expectation values from a Walsh-Hadamard transform of a histogram filled with `distribution[outcomes] = counts`", "strict subset measured and unmeasured qubits not in a computational-basis state (marginal outcomes collide)"),
+ "C10w2-b": ("density matrix built from x/z bitmasks with the sign parity taken from the column index", "states whose density matrix is not real: rho^T is returned"),
+ "C11w2-a": ("fast Walsh-Hadamard on a histogram filled with fancy-index `+=` (does not accumulate repeated indices)", "subset measurement with correlations across the cut"),
+ "C11w2-b": ("early validation is_connectivity_supported(preparation_circuit.num_qubits, connectivity) in both builders", "subset measurement where (N, c) is unsupported although (m, c) is, e.g. N = 7"),
+ "C12w2-a": ("fitter uses a histogram helper filled with `histogram[bitstring] = count`", "strict subset measured and an unmeasured qubit correlated with the measured ones"),
+ "C12w2-b": ("_check_connectivity_name() validates against the stale Literal annotation in both builders", "'ladder', 'E', 'H' rejected on plain full-register use"),
+ "C13w2-a": ("circuit branch of Stabilizer.__init__ calls data.remove_final_measurements() (in place)", "an input circuit with final measurements: the caller's circuit loses them"),
+ "C13w2-b": ("MUBInfo gains a summary dict self.info that get_mub_info returns; copy() stays shallow for it", "edit the dict returned by get_mub_info, call again for the same configuration"),
+ "C13w2-c": ("Graph.copy() reduced to Graph(self.adjacency_matrix) (int8 arrays are kept by reference)", "Graph.copy() / local_complemented(): the 'copy' shares the original's matrix"),
+ "C14w2-a": ("'+' and '-' prefix branches merged: an explicit '+' is recorded as a minus sign", "a generator written with an explicit '+' (e.g. Stabilizer(s.to_list()))"),
+ "C14w2-b": ("to_circuit() emits CZ in greedy layers bounded by max_degree + 1 rounds; postponed edges are dropped", "26 of 1023 graphs on 5 vertices, 733 on 6 (e.g. K5, K6)"),
+ "C16w2-a": ("", ""),
+ "C16w2-b": ("", ""),
+ "C17w2-a": ("(3,'star') registered and served from the linear tables by renaming qubits 0<->1 on the fly; the class index is not mapped", "(3,'star') class ids 1 and 2: entry's graph not in the class it is filed under; also an unadvertised pair is now accepted"),
+ "C17w2-b": ("a 761st line (the AME circuit of the stray table) appended to stabilizer6-all.txt", "entries counted against class ids, or lookup of id 760 / -1"),
+ "C18w2-a": ("rank() rewritten as forward elimination whose column loop stops at min(m, n)", "wide matrices whose pivots lie beyond column m-1"),
+ "C18w2-b": ("rref() tidy-up drops `A % 2`: bool matrices are eliminated in boolean arithmetic", "bool-typed binary matrices (e.g. Qiskit tableaux)"),
+ "C19w2-a": ("Graph.compress skips rows without edges without advancing the bit counter", "an isolated vertex numbered below an edge between two higher vertices"),
+ "C19w2-b": ("local_complementation rewritten on the neighbourhood block with an early return for len(neighbors) <= 2", "local complementation at a vertex of degree exactly 2 is a no-op"),
+})
+
 
 def main():
     out = os.path.join(V, "seeded")
